@@ -172,8 +172,8 @@ def validate(ctx, results):
     out = []
 
     def one(r):
-        return r, _retry(lambda: ctx.validate(r['batch'], module='TemplateTrace', cfg='TemplateTrace', heap='2g'))
-    with cf.ThreadPoolExecutor(max_workers=5) as ex:
+        return r, _retry(lambda: ctx.validate(r['batch'], module='TemplateTrace', cfg='TemplateTrace', heap='2g' if ctx.quick else '4g'))
+    with cf.ThreadPoolExecutor(max_workers=5 if ctx.quick else 7) as ex:
         for r in ex.map(one, [r for r in results if r['batch']['traces']]):
             out.append(r)
     return out
@@ -230,7 +230,7 @@ def run(ctx):
                         'function `arguments`, ExceptHandler / match_case / comprehension slot forms, string-interior '
                         'slots, __FSO_/__FSS_ overrides are not covered']
     quick = ctx.quick
-    n_cat, n_abs = (900, 250) if quick else (26000, 6000)
+    n_cat, n_abs = (900, 250) if quick else (16000, 4000)
 
     os.environ['OUT_FILE'] = os.path.join(__import__('harness.tlc', fromlist=['x']).scratch(), 'c18cases.json')
     ctx.model('TemplateCases', 'TemplateCases', workers=1, coverage=False, heap='1g')
@@ -248,13 +248,13 @@ def run(ctx):
         try:
             mc['r'] = _retry(lambda: ctx.model('TemplateMC', 'TemplateMC' if quick else 'TemplateMC_thorough',
                                                required=('Pick', 'Descend', 'SkipNode', 'Subst', 'LoopSubst', 'Stop'),
-                                               workers=8 if quick else 12, heap='3g' if quick else '8g', timeout=3000))
+                                               workers=8 if quick else 12, heap='3g' if quick else '6g', timeout=3000))
         except BaseException as e:  # noqa: BLE001
             mc['e'] = e
     th = threading.Thread(target=model)
     th.start()
 
-    results = run_shards(catalogue_specs(ctx, cases, n_cat, 0), nproc=6 if quick else 12)
+    results = run_shards(catalogue_specs(ctx, cases, n_cat, 0), nproc=6 if quick else 14)
     th.join()
     if 'e' in mc:
         raise mc['e']
@@ -266,14 +266,14 @@ def run(ctx):
     live = [r for r in rows if r['total'] > 0]
     sample = rng.sample(live, min(n_abs, len(live)))
     results += run_shards([{'kind': 'abs', 'tid': 10_000_000 + i, 'row': r} for i, r in enumerate(sample)],
-                          nproc=4 if quick else 12)
+                          nproc=4 if quick else 14)
     for r in results:
         if 'error' in r:
             raise common.Machinery('driver failed: ' + r['error'])
     collect(ctx, validate(ctx, results))
     ctx.require_clauses(['TemplateRel', 'Event.TemplateRel', 'Sync', 'Identity', 'Counts.total', 'Counts.static',
                          'CarriedOut', 'Event.OutsideTokens', 'Event.OutsideLines', 'OutsideTokens', 'Model.Result'])
-    if ctx.extra.get('substitutions', 0) < (1000 if quick else 20000):
+    if ctx.extra.get('substitutions', 0) < (1000 if quick else 15000):
         raise common.Machinery(f'vacuity guard: only {ctx.extra.get("substitutions", 0)} substitutions performed')
 
 
